@@ -721,12 +721,16 @@ type smtpGen struct {
 	subjN   int
 	errRate int // percent of deliberately wrong steps
 	bigBody bool
+	favour  string // when set, most recipients are this address (histories that keep coming back to one mailbox)
 }
 
 // recipients written without a domain part (RFC 5321 knows exactly one: the reserved "postmaster"), and with a source route
 var smtpBareLocals = []string{"postmaster", "Postmaster", "POSTMASTER", "abuse", "alice", "root", "MAILER-DAEMON"}
 
 func (g *smtpGen) addr() string {
+	if g.favour != "" && g.r.Intn(100) < 60 {
+		return g.favour
+	}
 	d := g.domainPool()
 	if x := g.r.Intn(100); x < 5 {
 		return smtpBareLocals[g.r.Intn(len(smtpBareLocals))]
